@@ -176,6 +176,11 @@ def gen(rng, tier):
     for l in lists:
         yield Case("cborenc", [nats(l)], "cbor")
         yield Case("cbordec", [hx(CborIndefiniteLenArrayEncoder.Encode(l))], "cbor")
+    # malformed / non-integer element streams
+    for _ in range(4000 if tier == "thorough" else 400):
+        n = rng.randrange(0, 6)
+        b = bytes([0x9f]) + bytes(rng.choice([rng.randrange(256), 0x18, 0x19, 0x1a, 0x1b, 0xff, 0x20, 0x38]) for _ in range(n)) + bytes([rng.choice([0xff, 0xff, 0])])
+        yield Case("cbordec", [hx(b)], "neg-cbor")
 
 
 def relations(rng, tier, rpt):
